@@ -1,5 +1,71 @@
-from .. import AnalysisBroken
+"""C10 - search results do not depend on output format or input container."""
+from ..nnabs import MOD
+from ..terms import show, strip, head
+from ._nn import check_make_output, check_roles_consistent, check_typestate, check_validation, get_nn, role_term, wh
+
+CLAIMED = True
+LEVEL = "other"
+TECHNIQUE = "container typestate (raw -> positional) for every integer subscript in nn.py, interprocedural through helper parameters, object attributes and the worker parameter block; decision-table comparison of _make_output; assertion-equivalence and call-order rules for argument validation"
+TEXT = ("Decides that (i) every integer / fancy subscript on a caller-supplied sequence container in nn.py acts on a container that has passed through "
+        "ensure_numpy / list / np.asarray (a pandas Series subscripted by an integer is a label lookup), following the container through helper "
+        "parameters, self.seqs and the _cal_params block; (ii) _make_output returns the triplet list for 'triplets', coo_matrix((data, (row, col)), shape) "
+        "with data/row/col collecting components 2/1/0 of every triplet and shape (len(seqs), len(seqs2) or len(seqs)) for 'coo_matrix', and its "
+        ".toarray() otherwise; every call site hands it the reference collection first and the query collection second; (iii) _check_common_input "
+        "contains an unconditional assertion equivalent to each specified test, the accepted output_type literals are exactly the three dispatched "
+        "ones, and every engine calls it first with each argument in its slot. Duplicate-free triplets (no accumulated COO entries) are C01/C03 "
+        "obligations. Grade B.")
+NOTE = "Trusted: ensure_numpy / np.asarray / list give positional containers; scipy coo_matrix((data,(row,col)), shape). Not decided: 'assert' being stripped under python -O."
 
 
 def run(r):
-    raise AnalysisBroken("rule set for C10 not implemented yet (fail-closed stub)")
+    rep = r.rep
+    nn = get_nn(r)
+    rep.explanation = "Every subscript on a sequence container in nn.py was typed (raw / positional); _make_output, its call sites and the validation routine were compared with the specification."
+    rep.trust("pyrepseq.util.ensure_numpy / numpy.asarray / list() return containers addressed by 0-based position", "scipy.sparse.coo_matrix((data, (row, col)), shape=s)[row[k], col[k]] = data[k] (duplicates would be summed)")
+    n = check_typestate(r, "C10-TS")
+    rep.require(n >= 10, f"C10-TS: {n} container subscripts typed, floor is 10")
+    check_make_output(r, "C10-OUT")
+    rep.floor("C10-OUT", 3)
+    # call sites of _make_output: (triplets, output_type, reference collection, query collection)
+    sites = 0
+    for fq in [x for x in nn.P.functions if x.startswith(MOD)]:
+        s = nn.summary(fq)
+        for e in s.calls(MOD + "_make_output"):
+            sites += 1
+            c = strip(e["term"])
+            a = c[2]
+            rep.analysed(fq)
+            ref = nn.R._role_of(fq, a[2]) if len(a) > 2 else None
+            qry = nn.R._role_of(fq, a[3]) if len(a) > 3 else None
+            ot = nn.R._role_of(fq, a[1]) if len(a) > 1 else None
+            rep.ob("C10-SITE", fq, ref == "SEQS" and (len(a) < 4 or qry == "SEQS2") and ot == "OT", "the result is shaped by the reference collection (rows) and the query collection (columns) and by the caller's output_type",
+                   wh(r, fq, e.node), expected="_make_output(triplets, output_type, seqs, seqs2)", found=show(c, 90), key=f"make_output site {fq}")
+    rep.require(sites >= 5, f"C10-SITE: {sites} _make_output call sites, floor is 5")
+    check_validation(r, "C10-VAL")
+    rep.floor("C10-VAL", 30)
+    check_roles_consistent(r, "C10-BIND")
+
+
+from ..selftest import V  # noqa: E402
+
+N = "pyrepseq/nn.py"
+VARIANTS = [
+    V("D3-symdel-raw-container", N, "    seqs = ensure_numpy(seqs)\n    symdeldb = SymdelDB(seqs, max_edits)", "    symdeldb = SymdelDB(seqs, max_edits)", rule="C10-TS"),
+    V("D3-symdeldb-raw-container", N, "    def __init__(self, seqs, max_edits):\n        seqs = ensure_numpy(seqs)\n", "    def __init__(self, seqs, max_edits):\n", rule="C10-TS"),
+    V("D3-lookup-raw-queries", N, "        ans = []\n        seqs2 = ensure_numpy(seqs2)\n", "        ans = []\n", rule="C10-TS"),
+    V("kdtree-leven-raw", N, "    # boilerplate\n    seqs = ensure_numpy(seqs)\n    params", "    # boilerplate\n    params", rule="C10-TS"),
+    V("row-from-query-position", N, "        row += [triplet[1]]\n        col += [triplet[0]]", "        row += [triplet[0]]\n        col += [triplet[1]]", rule="C10-OUT"),
+    V("dense-accepted-without-handler", N, '        "coo_matrix",\n        "triplets",\n        "ndarray",\n    }, "output must', '        "coo_matrix",\n        "triplets",\n        "ndarray",\n        "dense",\n    }, "output must', rule="C10-VAL"),
+    V("n_cpu-assert-deleted", N, '    assert type(n_cpu) == int and n_cpu > 0, "n_cpu must be a positive integer"\n', "", rule="C10-VAL"),
+    V("max_edits-allows-zero", N, "type(max_edits) == int and max_edits > 0", "type(max_edits) == int and max_edits >= 0", rule="C10-VAL"),
+    V("validation-slots-swapped", N, "        max_edits,\n        max_returns,\n        n_cpu,\n        custom_distance,\n        max_custom_distance,\n        output_type,\n    )\n    seqs = ensure_numpy(seqs)\n\n    lookupdb",
+      "        max_edits,\n        n_cpu,\n        max_returns,\n        custom_distance,\n        max_custom_distance,\n        output_type,\n    )\n    seqs = ensure_numpy(seqs)\n\n    lookupdb", rule="C10-VAL"),
+    V("shape-transposed", N, "else (len(seqs), len(seqs2))", "else (len(seqs2), len(seqs))", rule="C10-OUT"),
+    V("ndarray-of-other-matrix", N, 'return coo_result if output_type == "coo_matrix" else coo_result.toarray()', 'return coo_result if output_type == "coo_matrix" else coo_result.T.toarray()', rule="C10-OUT"),
+    V("lookup-make_output-swapped", N, "        return _make_output(ans, output_type, self.seqs, seqs2)\n\n\ndef _hamming", "        return _make_output(ans, output_type, seqs2, self.seqs)\n\n\ndef _hamming", rule="C10-SITE"),
+    V("validation-after-use", N, "    _check_common_input(\n        seqs,\n        max_edits,\n        max_returns,\n        n_cpu,\n        custom_distance,\n        max_custom_distance,\n        output_type,\n        seqs2\n    )",
+      "    first = SymdelDB(seqs, max_edits)\n    _check_common_input(\n        seqs,\n        max_edits,\n        max_returns,\n        n_cpu,\n        custom_distance,\n        max_custom_distance,\n        output_type,\n        seqs2\n    )", rule="C10"),
+    V("silent-list-normaliser", N, "    seqs = ensure_numpy(seqs)\n    symdeldb = SymdelDB(seqs, max_edits)", "    seqs = list(seqs)\n    symdeldb = SymdelDB(seqs, max_edits)", expect="silent"),
+    V("silent-append-components", N, "        row += [triplet[1]]\n        col += [triplet[0]]\n        data += [triplet[2]]", "        row.append(triplet[1])\n        col.append(triplet[0])\n        data.append(triplet[2])", expect="silent"),
+    V("silent-positive-branch-order", N, 'return coo_result if output_type == "coo_matrix" else coo_result.toarray()', 'return coo_result.toarray() if output_type != "coo_matrix" else coo_result', expect="silent"),
+]
